@@ -5,6 +5,7 @@
 // from the oracle, `go` only with >= 1 legal move, quit only after bestmove.
 #include "common.h"
 #include "gen.h"
+#include "kpk.h"
 #include "judge.h"
 #include "polyglot_spec.h"
 
@@ -200,6 +201,49 @@ Session make(const std::string& kind, long idx)
 {
     Session s;
     s.tag = kind;
+    if (kind == "kpkcold")
+    {
+        // a fresh process whose first evaluation of a K+P v K position happens on the reader thread (`staticeval`) while the
+        // search thread started by `go infinite` is just getting going: the classification must be the true one
+        const orc::KpkTruth& T = orc::KpkTruth::get();
+        Board b;
+        bool truth = false;
+        for (;;)
+        {
+            int stm = int(RNG->below(2)), wk = int(RNG->below(64)), wp = 8 + int(RNG->below(48)), bk = int(RNG->below(64));
+            if (!T.legal(stm, wk, wp, bk)) continue;
+            truth = T.white_wins(stm, wk, wp, bk);
+            if (!truth && RNG->below(4)) continue;  // mostly won positions: an empty table calls them drawn
+            Board c;
+            c.sq[wk] = orc::WK;
+            c.sq[wp] = orc::WP;
+            c.sq[bk] = orc::BK;
+            c.stm = stm;
+            if (RNG->below(2)) c = c.mirrored();
+            if (!c.has_legal()) continue;
+            b = c;
+            break;
+        }
+        bool strong_white = b.count(orc::WP) == 1;
+        bool strong_to_move = (b.stm == orc::WHITE) == strong_white;
+        int v = int(idx % 3);
+        s.tag = std::string("kpkcold:") + (v == 0 ? "staticeval-right-after-go" : v == 1 ? "staticeval-before-any-search" : "staticeval-after-uci-isready-go");
+        if (v == 2)
+        {
+            s.send("uci");
+            s.sync();
+        }
+        s.send("position fen " + b.fen());
+        if (v != 1) s.send("go infinite");
+        s.steps.push_back("[\"eval\"," + vh::jstr(b.fen()) + "," + (truth ? "1" : "0") + "," + (strong_to_move ? "1" : "0") + "]");
+        if (v != 1)
+        {
+            s.send("stop");
+            s.steps.push_back("[\"waitbest\"]");
+        }
+        s.send("quit");
+        return s;
+    }
     if (kind == "coldstart")
     {
         // no `uci`, no `isready`, no `position`: the engine's own commands (perft, moves, printboard, staticeval) on the
@@ -574,6 +618,15 @@ Session make(const std::string& kind, long idx)
         for (const orc::Move& m : allowed) lm.push_back(vh::jstr(m.uci()));
         for (int rep = 0; rep < 3; ++rep)
             s.steps.push_back("[\"go\"," + vh::jstr("go depth 2") + ",-1," + vh::jstr(root.fen()) + "," + jarr(lm) + ",2,[],0]");
+        if (idx % 3 == 1 && !g.moves.empty())
+        {
+            // a second game of the same session: after ucinewgame the GUI sets the book position up again with the very same
+            // command text; the book move must still be the answer
+            s.send("ucinewgame");
+            s.send(pos_cmd(g, g.moves.size()));
+            s.steps.push_back("[\"go\"," + vh::jstr("go depth 2") + ",-1," + vh::jstr(root.fen()) + "," + jarr(lm) + ",2,[],0]");
+            s.tag += ":same-position-command-after-ucinewgame";
+        }
         if (idx % 3 == 0)
         {
             // switch to a book WITHOUT complete records (empty / shorter than one record / cleared): the old records must be gone,
